@@ -54,7 +54,7 @@ func handleEnumerateBlobs(rw http.ResponseWriter, req *http.Request, storage blo
 	limit := defaultEnumerateSize
 	if formValueLimit != "" {
 		n, err := strconv.ParseUint(formValueLimit, 10, 32)
-		if err != nil || n > uint64(maxEnumerate) {
+		if err != nil || n == 0 || n > uint64(maxEnumerate) {
 			limit = maxEnumerate
 		} else {
 			limit = int(n)
